@@ -44,6 +44,11 @@ func runC14TCP(t *testing.T, rng *rand.Rand, rec *sim.Rec, tier string, caseNo i
 	dur := 3 * time.Hour
 	type sc struct{ perm, life time.Duration }
 	conf := pick(rng, []sc{{0, 0}, {0, 0}, {2*time.Minute + 15*time.Second, 2 * time.Minute}, {5 * time.Minute, 45 * time.Minute}, {3 * time.Minute, 5 * time.Minute}, {30 * time.Minute, 2 * time.Hour}})
+	if (caseNo/7)%3 == 0 {
+		// no channel binding refreshes the permission here as a side effect: with the tightest
+		// compatible timeouts every lost or unrepeated permission refresh shows as a refused peer
+		conf = sc{2*time.Minute + 15*time.Second, 2 * time.Minute}
+	}
 	cfg := sim.Config{
 		Realm: "verif.test", Users: map[string]string{"alice": "pw-a"},
 		PermTimeout: conf.perm, Lifetime: conf.life,
@@ -81,6 +86,9 @@ func runC14TCP(t *testing.T, rng *rand.Rand, rec *sim.Rec, tier string, caseNo i
 	relay := alloc.Addr().String()
 	ra, _ := net.ResolveTCPAddr("tcp", relay)
 	pattern := pick(rng, []string{"continuous", "idle-7m", "idle-40m", "mixed"})
+	if (caseNo/7)%3 == 0 {
+		pattern = "continuous" // (with the tight configuration chosen above: see there)
+	}
 	peerIP := net.IPv4(10, 2, 0, 1).To4()
 	// The peer is dialled first: DialTCP installs the permission the client then keeps refreshed
 	// (a permission made with Client.CreatePermission is a one-off request the client does not track).
@@ -213,13 +221,17 @@ func runC14(t *testing.T, rng *rand.Rand, rec *sim.Rec, tier string, caseNo int)
 		dur = 48 * time.Hour
 	}
 	type sc struct{ perm, ch, life time.Duration }
-	conf := pick(rng, []sc{
+	confs := []sc{
 		{0, 0, 0}, {0, 0, 0},
 		{2*time.Minute + 15*time.Second, 6 * time.Minute, 2 * time.Minute},
 		{5 * time.Minute, 10 * time.Minute, 45 * time.Minute},
 		{3 * time.Minute, 20 * time.Minute, 5 * time.Minute},
 		{30 * time.Minute, 7 * time.Minute, 2 * time.Hour},
-	})
+	}
+	conf := pick(rng, confs)
+	if caseNo%10 == 7 {
+		conf = confs[2]
+	}
 	cfg := sim.Config{
 		Realm: "verif.test", Users: map[string]string{"alice": "pw-a"},
 		PermTimeout: conf.perm, ChanTimeout: conf.ch, Lifetime: conf.life,
@@ -364,6 +376,11 @@ func runC14(t *testing.T, rng *rand.Rand, rec *sim.Rec, tier string, caseNo int)
 
 		return true
 	}
+	if caseNo%10 == 7 {
+		// the tightest compatible configuration during the hourly nonce rollover, on every run:
+		// a refresh that meets the 438 and is not repeated at once shows as a gap here
+		pattern = "rollover"
+	}
 	staleWindow := caseNo%10 == 3
 	if staleWindow {
 		dur = 50 * time.Minute
@@ -439,7 +456,7 @@ func init() {
 				return 6000
 			}
 
-			return 70
+			return 140
 		},
 		Run: runC14,
 	})
